@@ -72,6 +72,12 @@ class Event:
         self.env._push(self, NORMAL, self.env._now)
         return self
 
+    def trigger(self, event):
+        """chaining callback (src.callbacks.append(dst.trigger)): take over the outcome of `event`; a failure taken
+        over is this event's own failure and has to be handled by this event's own waiters"""
+        self._ok, self._value = event._ok, event._value
+        self.env._push(self, NORMAL, self.env._now)
+
     def __and__(self, other):
         return Condition(self.env, "all", [self, other])
 
@@ -334,3 +340,4 @@ class K:
     Interrupt = Interrupt
     EmptySchedule = EmptySchedule
     Event = Event
+    Timeout = Timeout
